@@ -38,6 +38,12 @@ theorem load_ok_inv {sd : SchemaDoc} {s : Schema} (h : load sd = .ok s) :
 
 /- ---------------- validators ---------------- -/
 
+theorem validateName_pass {p : Pos} {n : Name} (h : validateName p n = .pass) : hasDunder n = false := by
+  unfold validateName at h
+  split at h
+  · simp at h
+  · rename_i hd; simpa using hd
+
 theorem validateTypeRef_pass {st : LState} {t : GType} (h : validateTypeRef st t = .pass) :
     ∃ d, st.types.lookup t.name = some d := by
   unfold validateTypeRef LState.type? at h
@@ -101,6 +107,9 @@ theorem validateImplements_pass {st : LState} {d : Definition} {i : Name} (h : v
 
 /-- the facts a passing `validateDefinition` establishes -/
 structure DefOK (st : LState) (d : Definition) : Prop where
+  fieldNames : ∀ f ∈ d.fields, hasDunder f.name = false
+  uniqueFields : checkUniqueFields d.name d.fields = .pass
+  defName : d.builtIn = false → hasDunder d.name = false
   fieldTypes : ∀ f ∈ d.fields, ∃ t, st.types.lookup f.type.name = some t
   fieldArgs : ∀ f ∈ d.fields, validateArgs st f.args none = .pass
   fieldDirs : ∀ f ∈ d.fields, validateDirectives st f.dirs
@@ -113,8 +122,10 @@ structure DefOK (st : LState) (d : Definition) : Prop where
 theorem validateDefinition_pass {st : LState} {d : Definition} (h : validateDefinition st d = .pass) : DefOK st d := by
   unfold validateDefinition at h
   simp only [andThen_eq_pass, each_eq_pass] at h
-  obtain ⟨hf, hm, hi, hk, _, _, hd⟩ := h
-  refine ⟨fun f hf' => validateTypeRef_pass (hf f hf').2.1, fun f hf' => (hf f hf').2.2.1,
+  obtain ⟨hf, hm, hi, hk, hu, hn, hd⟩ := h
+  refine ⟨fun f hf' => validateName_pass (hf f hf').1, hu,
+    fun hb => by rw [hb] at hn; exact validateName_pass hn,
+    fun f hf' => validateTypeRef_pass (hf f hf').2.1, fun f hf' => (hf f hf').2.2.1,
     fun f hf' => (hf f hf').2.2.2, ?_, fun i hi' => validateImplements_pass (hi i hi'), hk, hd⟩
   intro m hm'
   have := hm m hm'
